@@ -616,7 +616,11 @@ func (st *ccState) deliverFrames(d dgram) {
 	}
 	if t.Coin(1, 4) {
 		f := frameSpec{ihl: 5, proto: 17, version: 4, cutAt: -1, srcIP: [4]byte{10, 0, 0, 9}, dstIP: [4]byte{255, 255, 255, 255}, srcPort: 67, dstPort: 68, payload: make([]byte, []int{0, 12, 40, 300}[t.Choose(4)])}
-		switch t.Choose(4) {
+		switch t.Choose(5) {
+		case 4:
+			// for the client's port, but with a UDP length field of 0..7 and nothing DHCP in it
+			f.payload = []byte{0xde, 0xad, 0xbe, 0xef, 1, 2, 3, 4, 5, 6, 7, 8}
+			f.udpLenField = 1 + t.Choose(8)
 		case 0:
 			f.dstPort = 67
 		case 1:
